@@ -32,7 +32,8 @@ func runScanCase(c *Ctx, content []rune, ops []string) {
 		s := rio.NewStringScanner(cs)
 		n := len(content)
 		pos := 0 // slots consumed according to the cursor semantics of the property
-		outs := []string{scanObs(s)}
+		stepNo := 0
+		outs := []string{fmt.Sprintf("%d/%d/%d/%d/%d", s.Line(), s.Column(), s.Peek(), s.PeekLine(), s.PeekColumn())}
 		check := func(step int, op string) {
 			if oracle != "" {
 				return
@@ -58,6 +59,36 @@ func runScanCase(c *Ctx, content []rune, ops []string) {
 			}
 		}
 		check(0, "new")
+		// what is looked at FIRST after an operation rotates: an accessor must not depend on another one having been
+		// called before it
+		scanObs := func(sc *rio.StringScanner) string {
+			stepNo++
+			if oracle == "" {
+				p := pos
+				if p > n+1 {
+					p = n + 1
+				}
+				switch stepNo % 5 {
+				case 1:
+					if p < n {
+						if _, c2 := freshLC(cs, p+1); sc.PeekColumn() != c2 {
+							oracle = fmt.Sprintf("op #%d at cursor %d: PeekColumn(), asked first, gives %d; after the next read the column is %d", stepNo, p, sc.PeekColumn(), c2)
+						}
+					}
+				case 2:
+					if p < n {
+						if l2, _ := freshLC(cs, p+1); sc.PeekLine() != l2 {
+							oracle = fmt.Sprintf("op #%d at cursor %d: PeekLine(), asked first, gives %d; after the next read the line is %d", stepNo, p, sc.PeekLine(), l2)
+						}
+					}
+				case 3:
+					if _, c1 := freshLC(cs, p); sc.Column() != c1 {
+						oracle = fmt.Sprintf("op #%d at cursor %d: Column(), asked first, gives %d; a fresh forward scan reports %d", stepNo, p, sc.Column(), c1)
+					}
+				}
+			}
+			return fmt.Sprintf("%d/%d/%d/%d/%d", sc.Line(), sc.Column(), sc.Peek(), sc.PeekLine(), sc.PeekColumn())
+		}
 		for i, op := range ops {
 			switch {
 			case op == "r":
@@ -249,6 +280,10 @@ func propC11(c *Ctx) {
 func replayC11(c *Ctx, op string) {
 	f := strings.Fields(op)
 	if len(f) < 2 {
+		return
+	}
+	if f[0] == "scanblock" {
+		propScanBlocks(c)
 		return
 	}
 	if f[0] == "scanhuge" {
